@@ -39,7 +39,25 @@ def has_aggregate(n):
     return has_aggregate(n.left) or has_aggregate(n.right)
 
 
-def check_result(run, tag, key, m, desc):
+def names_denoted(a):
+    """the names written in a constraint of a reference description (string constants are not names)"""
+    if isinstance(a, tuple) and a and a[0] == 'ref':
+        return {'.'.join(a[1:])}
+    if isinstance(a, str):
+        return set() if a.startswith("'") else {a}
+    if isinstance(a, (list, tuple)):
+        out = set()
+        for x in a[1:]:
+            out |= names_denoted(x)
+        return out
+    return set()
+
+
+def desc_has_aggregate(a):
+    return isinstance(a, (list, tuple)) and bool(a) and (a[0] in ('SUM', 'AVG', 'LEN', 'FLOOR', 'CEIL') or any(desc_has_aggregate(x) for x in a[1:]))
+
+
+def check_result(run, tag, key, m, desc, ref=None):
     run.case(f'{tag}: result is a well-formed tree', key, wf_model(m), 'not a well-formed tree (parent / owner / membership links)', desc)
     ok, why = True, ''
     for c in m.ctcs:
@@ -48,6 +66,11 @@ def check_result(run, tag, key, m, desc):
             break
         got = set(c.get_features())
         exp = names_written(c.ast.root)
+        if ref is not None and len(ref.get('ctcs', [])) == len(m.ctcs):
+            # what the document says, not what the reader made of it
+            rc = ref['ctcs'][m.ctcs.index(c)]['ast']
+            if not desc_has_aggregate(rc):
+                exp = names_denoted(rc)
         if got != exp:
             if has_aggregate(c.ast.root):
                 aggregate_seen.append(f'get_features() = {sorted(got)}, names written: {sorted(exp)}')
@@ -86,7 +109,7 @@ def main():
                 m = R(p).transform()
             except Exception as e:  # noqa: BLE001
                 continue       # round-trip completion is C01 / C05-C08's business
-            check_result(run, f'{tag} (library document)', key, m, d)
+            check_result(run, f'{tag} (library document)', key, m, d, ref=d)
     # independently emitted documents
     for tag, emit, R, suf in (('UVL', emit_uvl, UVLReader, '.uvl'), ('FeatureIDE', emit_featureide, FeatureIDEReader, '.xml'),
                               ('FaMa XML', emit_fama, XMLReader, '.xml'), ('Glencoe', emit_glencoe, GlencoeReader, '.gfm.json'),
@@ -99,7 +122,7 @@ def main():
                 m = R(p).transform()
             except Exception:
                 continue
-            check_result(run, f'{tag} (independent document)', f'{tag}:e{k}', m, {'document': text[:1500]})
+            check_result(run, f'{tag} (independent document)', f'{tag}:e{k}', m, {'document': text[:1500]}, ref=d)
     if aggregate_seen:
         run.case('get_features on constraints with aggregate functions', 'aggregate', False, aggregate_seen[0], known='C02_aggregate_features')
     run.finish('per reader: documents written by the library from random fragment models with random constraints, and documents from '
